@@ -152,6 +152,75 @@ def build_template(lib, drv, shim):
     return rig, blob
 
 
+def first_login_crash(lib, drv, shim, kinds=('user', 'so')):
+    """C16 for the FIRST C_Login after C_InitPIN on a token that never had a user PIN (and for the first SO login after
+    C_InitToken): a successful login writes nothing to the store; whatever it does write, a crash before any of its file-system
+    events leaves the token, both PINs and a public object usable.  -> (findings, stats)"""
+    findings, stats = [], {'events': {}, 'kill_cases': 0}
+    base = Rig(lib, drv, shim)
+    try:
+        p = base.proc(shimmed=False)
+        p.op('init')
+        p.op('inittoken tfree %s tok0' % SO)
+        s = p.op('open t0 rw').get('h')
+        p.op('login %s 0 %s' % (s, SO))
+        p.op('create %s 0=u:0 1=b:1 2=b:0 3=x:%s 0x11=x:0102' % (s, hexs('pub')))
+        p.op('initpin %s %s' % (s, USER))
+        p.op('logout %s' % s)
+        p.op('fini')
+        p.close()
+        base.procs = []
+        for kind in kinds:
+            line = 'login %%s %d %s' % ((1, USER) if kind == 'user' else (0, SO))
+            # reference: the events of the login call
+            ref = Rig(lib, drv, shim, base.dir)
+            try:
+                q = ref.proc(True)
+                q.op('init')
+                s2 = q.op('open t0 rw').get('h')
+                ref.arm('log')
+                r = q.op(line % s2)
+                ref.disarm()
+                ev = ref.events()
+                q.close()
+            finally:
+                ref.close()
+            stats['events'][kind] = len(ev)
+            if r.get('rv') != '0x0':
+                findings.append(('C16', 'the first %s login after C_InitPIN answers %s' % (kind, r.get('rv'))))
+                continue
+            for k in range(1, len(ev) + 1):
+                if ev[k - 1][0] in ('open', 'fclose', 'fflush') and not any(e[0] in ('ftruncate', 'fwrite', 'remove', 'rename') for e in ev[:k]):
+                    continue          # nothing has been written yet: the state is the committed one
+                rig = Rig(lib, drv, shim, base.dir)
+                try:
+                    q = rig.proc(True)
+                    q.op('init')
+                    s2 = q.op('open t0 rw').get('h')
+                    rig.arm('kill %d' % k)
+                    q.op(line % s2)
+                    rig.disarm()
+                    q.close()
+                    stats['kill_cases'] += 1
+                    dv = disk_view(rig, USER, SO)
+                    where = 'first %s login after C_InitPIN, crash after=%s before=%s (event %d of %d)' % (kind, ev[k - 2][0] if k >= 2 else 'start', ev[k - 1][0], k, len(ev))
+                    if dv['init'] != 0 or not dv['alive']:
+                        findings.append(('C16', '%s: a fresh process cannot initialise' % where))
+                    elif 'open' in dv:
+                        findings.append(('C16', '%s: the token is no longer found / cannot be opened (rv %s)' % (where, dv['open'])))
+                    elif not dv['so'] or not dv['user']:
+                        findings.append(('C16', '%s: the %s PIN no longer logs in' % (where, 'SO' if not dv['so'] else 'user')))
+                    elif dv['objs'] is None or hexs('pub') not in dv['objs']:
+                        findings.append(('C16', '%s: the token object is gone' % where))
+                finally:
+                    rig.close()
+                if len(findings) >= 2:
+                    break
+    finally:
+        base.close()
+    return findings, stats
+
+
 # ---- scenarios: (name, prelude(ctx) -> lines, op(ctx) -> line, targets, created, pin effect) ---------------------------
 def scenarios(blob):
     L = hexs
@@ -476,6 +545,8 @@ def classify(prop, scenario, message, sig=None):
             return None
         if scenario == 'init_second_token':
             return None      # the token that is being initialised is ANOTHER one: nothing may happen to the existing token
+        if scenario.startswith('login'):
+            return None      # a successful C_Login writes nothing (fix F15): the listed finding is about C_SetPIN / C_InitPIN / C_InitToken
         return 'rewrite-in-place:token.object'
     if scenario.startswith('destroy') and prop == 'C09':
         return 'delete-invalidates-first' if 'disappeared' in message else None
@@ -538,8 +609,43 @@ def seq_reject(lib, p11drv, seed, idx):
         objs = [o for o in objs if o]
         wk = objs[1]
         blob = p.op('wrap %s 0x2109 %s %s 600' % (s, wk, objs[3])).get('out', 'ab' * 24)
+        # base keys for key agreement: a P-256 private key and an X25519 pair (the shared secrets are 32 bytes long)
+        ecpriv = p.op('create %s 0=u:3 0x100=u:3 0x180=x:06082a8648ce3d030107 0x11=x:%s 0x10c=b:1 1=b:0 2=b:0 0x103=b:0 0x162=b:1' % (s, '%064x' % rng.randrange(1, 2 ** 255))).get('h')
+        xpair = p.op('genpair %s 0x1055 0x180=x:130a63757276653235353139 1=b:0 2=b:0 -- 1=b:0 2=b:0 0x10c=b:1' % s)
+        xpriv, xpub = xpair.get('priv'), xpair.get('pub')
+        xpoint = p.attr(s, xpub, 0x181) if xpub else None
         for _ in range(rng.randint(14, 22)):
-            kind = rng.choice(['create', 'create', 'genkey', 'genpair', 'unwrap', 'derive', 'copy', 'setattr', 'setattr', 'destroy'])
+            kind = rng.choice(['create', 'create', 'genkey', 'genpair', 'unwrap', 'derive', 'copy', 'setattr', 'setattr', 'destroy', 'agree'])
+            if kind == 'agree':
+                # C_DeriveKey(CKM_ECDH1_DERIVE) asking for more bytes than the shared secret has: refused AFTER the key object was set up
+                tok, priv = rng.randint(0, 1), rng.randint(0, 1)
+                base, peer = rng.choice([(ecpriv, '04' + '%064x' % 0x6b17d1f2e12c4247f8bce6e563a440f277037d812deb33a0f4a13945d898c296 + '%064x' % 0x4fe342e2fe1a7f9b8ee7eb4a7c0f9e162bce33576b315ececbb6406837bf51f5),
+                                         (xpriv, xpoint.hex() if xpoint else None)])
+                if not base or not peer:
+                    continue
+                pre_v = strip(view(p, s2))
+                pre_f = raw_objects(p.tokendir())
+                kt, vl = rng.choice([(0x10, 64), (0x10, 33), (0x1f, 32), (0x10, 48)])
+                if kt == 0x1f:
+                    peer_ = peer
+                line = 'derive %s 0x1050:ecdh:1:%s %s 0=u:4 0x100=u:0x%x 0x161=u:%d 1=b:%d 2=b:%d 3=x:%s' % (s, peer, base, kt, vl, tok, priv, L())
+                r = p.op(line)
+                stats['attempts'] += 1
+                if r.get('rv') in ('DIED', 'HANG'):
+                    findings.append(('the process %s on: %s' % (r.get('rv'), line[:120]), len(p.trace) - 1))
+                    break
+                if r.get('rv') != '0x0':
+                    stats['rejected'] += 1
+                    stats['kinds']['agree/toolong'] = stats['kinds'].get('agree/toolong', 0) + 1
+                    d = diff_views(pre_v, strip(view(p, s2)))
+                    post_f = raw_objects(p.tokendir())
+                    if d:
+                        findings.append(('derive (key agreement, %d bytes asked of a 32-byte secret) answered %s but afterwards another session sees: %s' % (vl, r.get('rv'), d), len(p.trace) - 1))
+                        break
+                    elif pre_f != post_f:
+                        findings.append(('derive (key agreement) answered %s but the token directory changed' % r.get('rv'), len(p.trace) - 1))
+                        break
+                continue
             tok, priv = rng.randint(0, 1), rng.randint(0, 1)
             sess = s
             tmpl = {'create': ['0=u:4', '0x100=u:0x1f', '1=b:%d' % tok, '2=b:%d' % priv, '3=x:%s' % L(), '0x11=x:%s' % ('c4' * 32), '0x162=b:1'],
